@@ -601,6 +601,9 @@ func (e *Env) callContract(fc *FuncContract, key string, sig *types.Signature, r
 		snapshot(h.name, h.s)
 	}
 	modMem := len(ms.refs) > 0 || !fc.ModSet
+	if !fc.ModSet && fc.Assumed && !strings.HasPrefix(key, modulePath) {
+		modMem = false // foreign functions touch no memory we model unless their contract says so
+	}
 	if fc.ModSet {
 		for _, m := range fc.Modifies {
 			if m == "mem" || m == "alloc" {
@@ -627,6 +630,8 @@ func (e *Env) callContract(fc *FuncContract, key string, sig *types.Signature, r
 			s = SBool
 		} else if kind == "seq" {
 			s = SArr
+		} else if kind == "u" {
+			s = SU
 		}
 		e.declare("ghost$"+g, s)
 		snapshot("ghost$"+g, s)
@@ -662,7 +667,8 @@ func (e *Env) callContract(fc *FuncContract, key string, sig *types.Signature, r
 		for _, rf := range ms.refs {
 			excl = append(excl, Ne(r, rf.Subst(oldMap)))
 		}
-		e.assume(Forall([]*Term{r}, Implies(And(append([]*Term{Lt(r, preRef)}, excl...)...),
+		// nothing lives at the nil ref: it is never written
+		e.assume(Forall([]*Term{r}, Implies(And(Lt(r, preRef), Or(Eq(r, IntLit(0)), And(excl...))),
 			Eq(Select(e.mem(), r), Select(Var(snap["Mem"], SMem), r)))))
 	}
 	if ms.memU {
